@@ -387,28 +387,31 @@ func genC11Positional(t *rapid.T) bson.D {
 		tail = rapid.SampledFrom([]string{".b", ".c", ".d", ""}).Draw(t, "tail")
 	}
 	var filters bson.A
+	// identifier names; one may be a textual prefix of the other
+	ids := rapid.SampledFrom([][2]string{{"x", "y"}, {"x", "y"}, {"x", "xy"}, {"xy", "x"}, {"e", "el"}, {"i1", "i"}}).Draw(t, "ids")
+	idX, idY := ids[0], ids[1]
 	if useID {
 		var cond interface{}
 		gen.WithHint(gen.HintOf(doc), func() {
 			if docs {
-				cond = bson.D{{Key: "x.c", Value: rapid.SampledFrom([]interface{}{int32(1), int32(2), "x", bson.D{{Key: "$ne", Value: int32(1)}}}).Draw(t, "fc")}}
+				cond = bson.D{{Key: idX + ".c", Value: rapid.SampledFrom([]interface{}{int32(1), int32(2), "x", bson.D{{Key: "$ne", Value: int32(1)}}}).Draw(t, "fc")}}
 			} else {
 				e := rapid.SampledFrom([]string{"$gte", "$lt", "$eq", "$ne", "$in"}).Draw(t, "fop")
 				var v interface{} = cfg.Scalar().Draw(t, "fv")
 				if e == "$in" {
 					v = bson.A{v, cfg.Scalar().Draw(t, "fv2")}
 				}
-				cond = bson.D{{Key: "x", Value: bson.D{{Key: e, Value: v}}}}
+				cond = bson.D{{Key: idX, Value: bson.D{{Key: e, Value: v}}}}
 			}
 		})
 		filters = append(filters, cond)
 		if second {
 			// a second identifier y used on the array d; its filter may be one
 			// that also holds for documents that lack y
-			filters = append(filters, bson.D{{Key: "y", Value: rapid.SampledFrom([]interface{}{int32(1), bson.D{{Key: "$ne", Value: int32(1)}}, nil, bson.D{{Key: "$exists", Value: false}}, bson.D{{Key: "$gte", Value: int32(2)}}, bson.D{{Key: "$nin", Value: bson.A{int32(2), "x"}}}}).Draw(t, "fy")}})
+			filters = append(filters, bson.D{{Key: idY, Value: rapid.SampledFrom([]interface{}{int32(1), bson.D{{Key: "$ne", Value: int32(1)}}, nil, bson.D{{Key: "$exists", Value: false}}, bson.D{{Key: "$gte", Value: int32(2)}}, bson.D{{Key: "$nin", Value: bson.A{int32(2), "x"}}}}).Draw(t, "fy")}})
 		}
 	}
-	return bson.D{{Key: "doc", Value: doc}, {Key: "op", Value: op}, {Key: "arg", Value: arg}, {Key: "useID", Value: useID}, {Key: "tail", Value: tail}, {Key: "filters", Value: filters}, {Key: "second", Value: second}}
+	return bson.D{{Key: "doc", Value: doc}, {Key: "op", Value: op}, {Key: "arg", Value: arg}, {Key: "useID", Value: useID}, {Key: "tail", Value: tail}, {Key: "filters", Value: filters}, {Key: "second", Value: second}, {Key: "ids", Value: bson.A{idX, idY}}}
 }
 
 func runC11Positional(c bson.D, x *Ctx) error {
@@ -421,11 +424,15 @@ func runC11Positional(c bson.D, x *Ctx) error {
 	filters := asA(getD(c, "filters"))
 	arr := asA(getD(doc, "a"))
 	arr2 := asA(getD(doc, "d"))
+	idX, idY := "x", "y"
+	if ids := asA(getD(c, "ids")); len(ids) == 2 {
+		idX, idY = asS(ids[0]), asS(ids[1])
+	}
 	// expected concrete paths, from the reference matcher
 	var paths []string
 	for i, el := range arr {
 		if useID {
-			m, err := ref.Match(bson.D{{Key: "x", Value: el}}, asD(filters[0]))
+			m, err := ref.Match(bson.D{{Key: idX, Value: el}}, asD(filters[0]))
 			if err == ref.ErrOutside || err == ref.ErrInvalid {
 				x.Class("filter-outside-reference")
 				return nil
@@ -439,7 +446,7 @@ func runC11Positional(c bson.D, x *Ctx) error {
 	na := len(paths)
 	if second {
 		for i, el := range arr2 {
-			m, err := ref.Match(bson.D{{Key: "y", Value: el}}, asD(filters[1]))
+			m, err := ref.Match(bson.D{{Key: idY, Value: el}}, asD(filters[1]))
 			if err == ref.ErrOutside || err == ref.ErrInvalid {
 				x.Class("filter-outside-reference")
 				return nil
@@ -451,11 +458,11 @@ func runC11Positional(c bson.D, x *Ctx) error {
 	}
 	pos := "a.$[]"
 	if useID {
-		pos = "a.$[x]"
+		pos = "a.$[" + idX + "]"
 	}
 	fields := bson.D{{Key: pos + tail, Value: arg}}
 	if second {
-		fields = append(fields, bson.E{Key: "d.$[y]", Value: arg})
+		fields = append(fields, bson.E{Key: "d.$[" + idY + "]", Value: arg})
 	}
 	positional := lapply(doc, bson.D{{Key: op, Value: fields}}, false, filters)
 	if positional.panic {
